@@ -146,22 +146,24 @@ func run(id, tier string) int {
 			continue // enough artefacts; the count is still reported
 		}
 		path := rt.WriteReplay(v)
-		// confirm in fresh processes before believing it
+		// re-execute the recorded case in fresh processes; the outcome is reported with the violation. A case that does
+		// not reproduce in isolation (it depended on what ran before it in the same worker, or on scheduling inside
+		// another process) is still a violation observed on the real code, so it is still reported.
 		self, _ := os.Executable()
+		repro := 0
 		for i := 0; i < 3; i++ {
 			cmd := exec.Command(self, "replay-quiet", path)
 			cmd.Env = append(os.Environ(), "VCHECK_REPLAY_SCRATCH="+ctx.TempDir("replay"))
-			out, err := cmd.CombinedOutput()
-			code := 0
-			if ee, ok := err.(*exec.ExitError); ok {
-				code = ee.ExitCode()
-			} else if err != nil {
-				code = 2
-			}
-			if code != 1 {
-				rt.Harnessf("violation %q (%s) did not reproduce on replay %d (exit %d): %s\noutput: %s", v.Sig, v.Detail, i+1, code, path, out)
+			err := cmd.Run()
+			if ee, ok := err.(*exec.ExitError); ok && ee.ExitCode() == 1 {
+				repro++
 			}
 		}
+		note := fmt.Sprintf("replay reproduces %d/3", repro)
+		if repro == 0 {
+			note += " (NOT reproducible in isolation: the failure depends on the history of the run that found it; see detail)"
+		}
+		fmt.Printf("  %s\n", note)
 		reported++
 		violLines = append(violLines, fmt.Sprintf("VIOLATION property=%s replay=%s", id, path))
 		fmt.Printf("violation: %s\n  sig: %s\n", v.Detail, rt.Shorten(v.Sig, 400))
